@@ -121,6 +121,26 @@ def failing_destructors():
                "class A { public static H sink = new H(); public int v = 5; public constructor() -> A { }\n"
                "  public destructor() -> void { sink.held = this; } }\n"
                "function main() -> void { A a = new A(); a = null; A b = new A(); echo(A.sink.held.v); }\n")
+    # depth without nesting in the source: long object chains, deep recursion, self-instantiating generics, deep hierarchies
+    out.append("class Node { public Node next; public int v; public constructor(int v) -> Node { this.v = v; this.next = null; } }\n"
+               "function main() -> void { Node head = new Node(0); for (int i = 1; i < 10000; i = i + 1) { Node n = new Node(i); n.next = head; head = n; } echo(head.v); head = null; echo(\"done\"); }\n")
+    out.append("class Node { public Node next; public int v; public constructor(int v) -> Node { this.v = v; this.next = null; } public destructor() -> void { if (v == 7) { echo(\"~7\"); } } }\n"
+               "function main() -> void { Node head = new Node(0); for (int i = 1; i < 3000; i = i + 1) { Node n = new Node(i); n.next = head; head = n; } head = null; echo(\"done\"); }\n")
+    out.append("function sum(int n) -> int { if (n <= 0) { return 0; } return 1 + sum(n - 1); }\nfunction main() -> void { echo(sum(300)); echo(sum(100000)); }\n")
+    out.append("class A { public constructor() -> A { } public function down(int n) -> int { if (n <= 0) { return 0; } return 1 + this.down(n - 1); } }\n"
+               "function main() -> void { A a = new A(); echo(a.down(100000)); }\n")
+    out.append("class R { public R inner; public constructor() -> R { this.inner = new R(); } }\nfunction main() -> void { R r = new R(); echo(\"x\"); }\n")
+    out.append("class G<T> { public static G<G<T>> next = new G<G<T>>(); public constructor() -> G<T> { } }\nfunction main() -> void { G<int> g = new G<int>(); echo(\"ok\"); }\n")
+    out.append("class C0 { public constructor() -> C0 { } public virtual function f() -> int { return 0; } }\n" +
+               "".join("class C%d extends C%d { public constructor() -> C%d { super(); } public override function f() -> int { return %d; } }\n" % (i, i - 1, i, i) for i in range(1, 400)) +
+               "function main() -> void { C399 c = new C399(); echo(c.f()); }\n")
+    out.append("class C0 { public constructor() -> C0 { } public virtual function f() -> int { return 0; } }\n" +
+               "".join("class C%d extends C%d { public constructor() -> C%d { super(); } public override function f() -> int { return %d; } }\n" % (i, i - 1, i, i) for i in range(1, 200)) +
+               "function main() -> void { C0 c = new C199(); echo(c.f()); }\n")
+    # an error in a destructor reached from inside another destructor
+    out.append("class Node { public int v; public constructor(int v) -> Node { this.v = v; }\n"
+               "  public destructor() -> void { if (this.v == 0) { { Node t = new Node(1); } Node u = new Node(2); } else { int[] d = {1}; int z = d[5]; } } }\n"
+               "function main() -> void { Node a = new Node(0); a = null; echo(\"end\"); }\n")
     # a user function named like a built-in gate must be refused (or must simply work)
     for g, ps in (("h", ""), ("x", ""), ("rx", "int a"), ("cx", "int a")):
         out.append("function %s(%s) -> void { echo(\"mine\"); }\nfunction main() -> void { %s(%s); }\n" % (g, ps, g, "1" if ps else ""))
